@@ -3,14 +3,16 @@
    (indexing the last two bytes, Z division) without the model's functions. *)
 From stdpp Require Import gmap.
 From Coq Require Import NArith ZArith.
-From HV Require Import Lib.Bytes Lib.Harness Model.Keys Model.Tstate Check.TstateCase.
+From HV Require Import Lib.Bytes Lib.Harness.
+From HV Require Export Model.Keys Model.Tstate Check.TstateCase.
 Local Open Scope N_scope.
 
 Inductive case :=
   | KF (k : key) (vlen maxsize : Z) (mks mvc chunks : N)
        (o_valid : bool) (o_max o_dec o_num : option N) (o_vv o_verify : bool)
        (o_enc : option key) (o_encvv : bool) (o_encch : key) (o_encchmax : option N) (o_add : bool)
-  | KI (k : key) (vlen : N) (all : bool) (p : N) (present : bool) (o_err o_get : N).
+  | KI (k : key) (vlen : N) (all : bool) (p : N) (present : bool) (o_err o_get : N)
+  | KH (c : TstateCase.case).   (* a whole view history (format of C04/C05) with lengths at the bounds *)
 
 Definition okey_eqb (a b : option key) : bool := oval_eqb a b.
 Definition is_some {A} (o : option A) : bool := match o with Some _ => true | None => false end.
@@ -33,6 +35,7 @@ Definition check_case (c : case) : bool :=
       let '(s', e) := insert (ki_view k all p present) k v in
       N.eqb (match e with None => 0 | Some EPerm => 1 | Some EValue => 2 | Some ENotFound => 3 end) o_err
       && N.eqb (match vis s' k with Some v' => if bytes_eqb v' v then 0 else 1 | None => 2 end) o_get
+  | KH c => TstateCase.check_case c
   end.
 
 (* ---- the property, recomputed from scratch *)
@@ -74,6 +77,23 @@ Definition spec_ok (c : case) : bool :=
       && implb (N.eqb o_err 0) (N.eqb o_get 0)
       && implb (fits && (all || has_bits p 7)) (N.eqb o_err 0)
       && implb (N.ltb (klen k) 2) (negb (N.eqb o_err 0))
+  | KH c =>
+      (* every Insert that succeeded, anywhere in any history, respects the chunk bound of its key,
+         and every value any view ever shows for a key of the universe that it did not inherit
+         from storage respects it too *)
+      forallb (fun so : seg * seg_obs =>
+        let base_ok k ov := match ov with
+                            | Some v => admits k (blenZ v) || existsb (fun kv => bytes_eqb (fst kv) k && bytes_eqb (snd kv) v) (c_base c)
+                            | None => true
+                            end in
+        forallb (fun ho : hop * step_obs =>
+          match fst ho, so_res (snd ho) with
+          | HIns k v, IOk => admits k (blenZ v)
+          | _, _ => true
+          end
+          && forallb (fun kv => base_ok (fst kv) (snd kv)) (combine (c_univ c) (so_vis (snd ho))))
+          (combine (sg_hist (fst so)) (go_steps (snd so))))
+        (combine (c_segs c) (c_obs c))
   end.
 
 Definition selftest_good : case := KI [113; 0; 1] 63 false 7 false 0 0.
